@@ -16,6 +16,7 @@ package main
 import (
 	"bytes"
 	"crypto"
+	"crypto/sha256"
 	"fmt"
 	"math/rand"
 	"os"
@@ -319,7 +320,7 @@ func run(c *vf.Ctx) {
 	sort.Strings(branches)
 	g.Run(base, "checkout", "-q", "-f", branches[0])
 
-	nseq := c.N(36, 900)
+	nseq := c.N(120, 1500)
 	for i := 0; i < nseq; i++ {
 		r := c.Rand("seq", i)
 		steps := genSeq(r, branches, ids)
@@ -353,12 +354,16 @@ func run(c *vf.Ctx) {
 				ses.rec.FaultMatch = faultable
 			}
 			var serr error
+			pre := statIndex(dir)
 			if p, stk := vf.Catch(func() { serr = ses.do(s) }); p != nil {
 				c.Fail("panic:"+s.Kind, fmt.Sprintf("%v\n%s", p, stk), caseT{Steps: steps[:k+1]})
 				ok = false
 				break
 			}
 			_ = serr
+			if strings.HasPrefix(s.Kind, "git-") && ensureStatChanged(dir, pre) {
+				c.Count("external_rewrites_within_one_timestamp_tick_mtime_bumped", 1)
+			}
 			c.Count("steps", 1)
 			c.Seen("step_kinds", s.Kind)
 			if strings.HasPrefix(s.Kind, "git-") {
@@ -388,7 +393,7 @@ func run(c *vf.Ctx) {
 		for k := 0; k < K; k++ {
 			ks = append(ks, k)
 		}
-		if maxK := c.N(12, 200); len(ks) > maxK {
+		if maxK := c.N(24, 200); len(ks) > maxK {
 			stepK := float64(len(ks)) / float64(maxK)
 			var keep []int
 			for j := 0; j < maxK; j++ {
@@ -411,7 +416,14 @@ func run(c *vf.Ctx) {
 					s2.rec.Record = true
 				}
 				var serr error
-				if p, stk := vf.Catch(func() { serr = s2.do(s) }); p != nil {
+				pre := statIndex(d2)
+				defer func() { _ = pre }()
+				if p, stk := vf.Catch(func() {
+					serr = s2.do(s)
+					if strings.HasPrefix(s.Kind, "git-") {
+						ensureStatChanged(d2, pre)
+					}
+				}); p != nil {
 					c.Fail("panic-under-fault:"+s.Kind, fmt.Sprintf("%v\n%s", p, stk), caseT{Steps: steps, FaultStep: k, FaultK: fk})
 					bad = true
 					break
@@ -453,13 +465,46 @@ func run(c *vf.Ctx) {
 	}
 	c.Extra("git_invocations", gitx.Calls.Load())
 	c.Floor("sequences", c.SeenCount("step_kinds"), 12)
-	c.Floor("invariant checks after fault-free steps", c.Counter("invariant_checks"), c.N(120, 4000))
-	c.Floor("faulted steps", c.Counter("faulted_steps"), c.N(200, 15000))
-	c.Floor("faults actually injected", c.Counter("faults_injected"), c.N(180, 12000))
-	c.Floor("faulted steps that returned an error", c.Counter("faulted_steps_that_returned_error"), c.N(60, 4000))
-	c.Floor("external rewrites of the index by git", c.Counter("external_rewrites"), c.N(12, 400))
+	c.Floor("invariant checks after fault-free steps", c.Counter("invariant_checks"), c.N(400, 4000))
+	c.Floor("faulted steps", c.Counter("faulted_steps"), c.N(1200, 15000))
+	c.Floor("faults actually injected", c.Counter("faults_injected"), c.N(1000, 12000))
+	c.Floor("faulted steps that returned an error", c.Counter("faulted_steps_that_returned_error"), c.N(300, 4000))
+	c.Floor("external rewrites of the index by git", c.Counter("external_rewrites"), c.N(40, 400))
 	c.Assume("external rewrites are done by real git commands, which change the index's size or mtime (the property's stated domain)")
 	c.Assume("fault = EIO returned once by one fs operation on .git/index or a worktree path during the last step")
+}
+
+type statT struct {
+	mtime time.Time
+	size  int64
+	sum   [32]byte
+	ok    bool
+}
+
+func statIndex(dir string) statT {
+	p := filepath.Join(dir, ".git", "index")
+	fi, err := os.Stat(p)
+	if err != nil {
+		return statT{}
+	}
+	b, _ := os.ReadFile(p)
+	return statT{fi.ModTime(), fi.Size(), sha256.Sum256(b), true}
+}
+
+// ensureStatChanged keeps external rewrites inside the property's domain ("external rewrites of the
+// index that change its size or modification time"): when git rewrote the index with different bytes but
+// within the same filesystem timestamp tick and with the same size, the mtime is moved forward.
+func ensureStatChanged(dir string, pre statT) bool {
+	post := statIndex(dir)
+	if !pre.ok || !post.ok || post.sum == pre.sum {
+		return false
+	}
+	if post.size != pre.size || !post.mtime.Equal(pre.mtime) {
+		return false
+	}
+	nt := post.mtime.Add(10 * time.Millisecond)
+	os.Chtimes(filepath.Join(dir, ".git", "index"), nt, nt)
+	return true
 }
 
 func pathKind(p string) string {
